@@ -342,6 +342,22 @@ func deepBombRepo(r *rng) ([]gObj, []int64) {
 	return objs, times
 }
 
+// a directory with 65 536-65 700 subdirectories, all the same small tree: one commit, two trees, one blob. When
+// the wide tree is read none of its 65 536+ entries is known yet (a 16-bit count of pending entries wraps
+// through zero: seeded changes C01q, C09q)
+func wideFanRepo(r *rng) ([]gObj, []int64) {
+	objs := []gObj{{kind: 'b', size: uint64(5 + r.n(20))}}
+	objs = append(objs, gObj{kind: 't', entries: []gEntry{{0o100644, []byte("file.txt"), 0}}})
+	n := 65536 + r.n(165)
+	es := make([]gEntry, 0, n)
+	for i := 0; i < n; i++ {
+		es = append(es, gEntry{0o40000, []byte(fmt.Sprintf("d%05d", i)), 1})
+	}
+	objs = append(objs, gObj{kind: 't', entries: es})
+	objs = append(objs, gObj{kind: 'c', tree: 2, pad: r.n(30)})
+	return objs, []int64{1500000000, 1500000000, 1500000000, 1500000000}
+}
+
 // "subtree split": a directory Z with many entries is the ROOT tree of the newest commit (so it is finished
 // and cited before anything names it) and, in an older commit on another branch, the LAST subdirectory of a
 // root that has other subdirectories before it: every entry reported to the path resolver must carry its
@@ -832,6 +848,9 @@ func init() {
 				if !hasDuplicateObjects(objs, times) {
 					break
 				}
+			}
+			if i%160 == 77 {
+				objs, times = wideFanRepo(r) // once per 160 cases: it costs seconds, not milliseconds
 			}
 			objs = realSizes(objs, times)
 			refs := genE2ERefs(r, objs)
